@@ -44,14 +44,17 @@ def make_grid(case):
     a = np.array([float(fr(x)) for x in case["a"]])
     b = np.array([float(fr(x)) for x in case["b"]])
     bd = bool(case["boundary"])
+    # constructor option `integrator`: None -> IntegratorArbitraryGridScalarProduct (default), 'old' -> the point-by-point
+    # IntegratorArbitraryGrid; every other value trips `assert False` in the constructors
+    kw = {"integrator": case["integrator"]} if case.get("integrator") is not None else {}
     if fam == "Trapezoidal":
-        return G.TrapezoidalGrid(a=a, b=b, boundary=bd, modified_basis=bool(case.get("modified", False)))
+        return G.TrapezoidalGrid(a=a, b=b, boundary=bd, modified_basis=bool(case.get("modified", False)), **kw)
     if fam == "Simpson":
-        return G.SimpsonGrid(a=a, b=b, boundary=bd)
+        return G.SimpsonGrid(a=a, b=b, boundary=bd, **kw)
     if fam == "ClenshawCurtis":
-        return G.ClenshawCurtisGrid(a=a, b=b, boundary=bd)
+        return G.ClenshawCurtisGrid(a=a, b=b, boundary=bd, **kw)
     if fam == "Leja":
-        return G.LejaGrid(a=a, b=b, boundary=bd)
+        return G.LejaGrid(a=a, b=b, boundary=bd, **kw)
     if fam == "GaussLegendre":
         return G.GaussLegendreGrid(a=a, b=b)
     if fam == "Lagrange":
@@ -150,6 +153,8 @@ def run_case(ctx, drv, case, rng, thorough=False, verbose=False):
     base_tags = {"family": fam, "boundary": bd, "modified": md, "dim": dim}
     if fam in HIER:
         base_tags["p"] = int(case["p"])
+    if case.get("integrator") is not None:
+        base_tags["integrator"] = case["integrator"]
     ok = True
     # Leja with boundary off builds the interpolatory rule on the points it keeps (announced = returned since the repair
     # of level_to_num_points_1d), so it is a complete rule of nominal degree n-1 for its n points
@@ -345,9 +350,12 @@ def run_case(ctx, drv, case, rng, thorough=False, verbose=False):
                     viol(probe, {"degree_max": max(ks), "shifted": shifted, "beyond_depth": beyond},
                          {"exponents": ks, "got": got, "exact": exact, "nominal_degrees": degs, "num_points": N,
                           "hierarchy_depth_degrees": depth})
-        # grid.integrate agrees with sum w_i f(x_i) for the nodal families (one mixed monomial)
-        if fam not in HIER and ok:
-            ks = tuple(min(degs[d], 2) for d in range(dim))
+        # grid.integrate (through whichever integrator the grid was constructed with) agrees with sum w_i f(x_i) of
+        # get_points_and_weights and with the closed form: the constant, one mixed monomial, the top nominal degree
+        ks_list = [tuple(min(degs[d], 2) for d in range(dim))]
+        if case.get("integrator") is not None or rng.random() < 0.25:
+            ks_list += [tuple([0] * dim), tuple(min(degs[d], 3) for d in range(dim))]
+        for ks in (dict.fromkeys(ks_list) if (fam not in HIER and ok) else []):
             csf, ssf = np.zeros(dim), np.ones(dim)
             try:
                 got = float(np.asarray(grid.integrate(mono_function(ks, csf, ssf), lv, start, end)).reshape(-1)[0])
@@ -357,6 +365,7 @@ def run_case(ctx, drv, case, rng, thorough=False, verbose=False):
                 scale = max(abs(exact), vol * float(np.max(np.abs(fv))), 1e-300)
                 if abs(got - ref) > TOL * scale or abs(got - exact) > TOL * scale:
                     viol("integrate", {"kind": "value"}, {"exponents": ks, "integrate": got, "sum_w_f": ref, "exact": exact})
+                    break
                 # model moment
                 if model_line is not None:
                     m = drv.ask("mom %s %d %d %s %s %s %s %s %s" % (MODELLED[fam], bd, md, vecstr(A), vecstr(B), vecstr(S), vecstr(E),
@@ -431,8 +440,12 @@ def gen_subbox(rng, A, B, pattern=None):
     return S, E
 
 
-def gen_levels(rng, dim, lmax, fam):
-    cap = {1: 4000, 2: 1500, 3: 1200}[dim]
+OLD_INTEGRATOR_FAMILIES = ("Trapezoidal", "Simpson", "ClenshawCurtis", "Leja")   # constructors with an `integrator` option
+OLD_CAP = 700        # the point-by-point integrator is a python loop: keep those grids small
+
+
+def gen_levels(rng, dim, lmax, fam, cap=None):
+    cap = cap or {1: 4000, 2: 1500, 3: 1200}[dim]
     while True:
         lv = [rng.randint(0, lmax) for _ in range(dim)]
         if rng.random() < 0.25:
@@ -448,14 +461,19 @@ def gen_case(rng, thorough, fam=None):
     lmax = 5 if thorough else 4
     if fam in HIER and dim == 3:
         lmax = 3
-    if fam == "Leja" and dim == 3:
-        lmax = 3
+    if fam == "Leja":
+        lmax = 3 if dim == 3 else 5      # Leja has negative weights at levels 3 (n=7) and 5 (n=11): keep both in every tier
+    integrator = "old" if (fam in OLD_INTEGRATOR_FAMILIES and rng.random() < 0.4) else None
     A, B = gen_box(rng, dim)
     S, E = gen_subbox(rng, A, B)
-    lv = gen_levels(rng, dim, lmax, fam)
+    lv = gen_levels(rng, dim, lmax, fam, OLD_CAP if integrator else None)
+    if fam == "Leja" and rng.random() < 0.5:
+        lv[rng.randrange(dim)] = rng.choice([3, 5] if dim < 3 else [3])
     case = {"family": fam, "dim": dim, "a": [fstr(x) for x in A], "b": [fstr(x) for x in B],
             "start": [fstr(x) for x in S], "end": [fstr(x) for x in E], "lv": lv,
             "boundary": rng.random() < 0.6, "modified": False}
+    if integrator:
+        case["integrator"] = integrator
     if fam == "Trapezoidal" and not case["boundary"] and rng.random() < 0.5:
         case["modified"] = True
     if fam == "GaussLegendre":
@@ -518,12 +536,15 @@ def run(ctx):
                     for p in ([2, 3] if fam == "Lagrange" else [3] if fam == "BSpline" else [None]):
                         A, B = ([Fr(0)], [Fr(2)]) if rng.random() < 0.5 else gen_box(rng, 1)
                         S, E = gen_subbox(rng, A, B, pat)
-                        for l in range(0, 4):
-                            c = {"family": fam, "dim": 1, "a": [fstr(A[0])], "b": [fstr(B[0])], "start": [fstr(S[0])], "end": [fstr(E[0])],
-                                 "lv": [l], "boundary": bd, "modified": mdf}
-                            if p is not None:
-                                c["p"] = p
-                            sweep.append(c)
+                        for l in range(0, 6 if fam == "Leja" else 4):
+                            for integ in ([None, "old"] if fam in OLD_INTEGRATOR_FAMILIES else [None]):
+                                c = {"family": fam, "dim": 1, "a": [fstr(A[0])], "b": [fstr(B[0])], "start": [fstr(S[0])],
+                                     "end": [fstr(E[0])], "lv": [l], "boundary": bd, "modified": mdf}
+                                if p is not None:
+                                    c["p"] = p
+                                if integ is not None:
+                                    c["integrator"] = integ
+                                sweep.append(c)
     k = 0
     for c in sweep:
         ok = run_case(ctx, drv, c, rng, thorough)
@@ -542,7 +563,8 @@ def run(ctx):
                 B = [fr(x) for x in case["b"]]
                 S, E = gen_subbox(rng, A, B)
                 case = dict(case, start=[fstr(x) for x in S], end=[fstr(x) for x in E],
-                            lv=gen_levels(rng, case["dim"], max(case["lv"]) if max(case["lv"]) > 0 else 1, case["family"]))
+                            lv=gen_levels(rng, case["dim"], max(case["lv"]) if max(case["lv"]) > 0 else 1, case["family"],
+                                          OLD_CAP if case.get("integrator") else None))
             c = canon(case)
             if rng.random() < 0.3:
                 c["mode"] = "integrate-first"
@@ -572,6 +594,7 @@ def run(ctx):
 
 def account(ctx, c, k):
     ctx.count("family_" + c["family"])
+    ctx.count("integrator_%s_%s" % (c.get("integrator") or "default", c["family"]))
     ctx.count("dim_%d" % c["dim"])
     ctx.count("boundary_%s" % ("on" if c["boundary"] else "off") + ("_modified" if c.get("modified") else ""))
     for d in range(c["dim"]):
